@@ -149,6 +149,14 @@ func compareMatchers(a compat.Matcher, g compat.Matcher, s string, st func(strin
 		cmp("FindIndex", a.FindIndex(b), g.FindIndex(b))
 		cmp("FindReaderIndex", a.FindReaderIndex(strings.NewReader(s)), g.FindReaderIndex(strings.NewReader(s)))
 		cmp("FindReaderSubmatchIndex", a.FindReaderSubmatchIndex(strings.NewReader(s)), g.FindReaderSubmatchIndex(strings.NewReader(s)))
+		// a reader that fails half way: any read error ends the text
+		half := len(s) / 2
+		for half < len(s) && !utf8.RuneStart(s[half]) {
+			half++
+		}
+		cmp("MatchReader(failing)", a.MatchReader(&failingReader{s: s, after: half}), g.MatchReader(&failingReader{s: s, after: half}))
+		cmp("FindReaderIndex(failing)", a.FindReaderIndex(&failingReader{s: s, after: half}), g.FindReaderIndex(&failingReader{s: s, after: half}))
+		cmp("FindReaderSubmatchIndex(failing)", a.FindReaderSubmatchIndex(&failingReader{s: s, after: half}), g.FindReaderSubmatchIndex(&failingReader{s: s, after: half}))
 		cmp("FindString", a.FindString(s), g.FindString(s))
 		cmp("FindStringSubmatch", a.FindStringSubmatch(s), g.FindStringSubmatch(s))
 		cmp("FindStringIndex", a.FindStringIndex(s), g.FindStringIndex(s))
@@ -359,6 +367,9 @@ func goGroupOrder(pat *gen.Pattern) []int {
 }
 
 func replayC06(w core.Witness) string {
+	if reg, _ := w.Args["regression"].(string); reg == "reader-error" {
+		return runRegression("compat-reader-error")
+	}
 	var ast gen.Node
 	if err := json.Unmarshal(w.AST, &ast); err != nil {
 		return "witness has no AST"
@@ -484,9 +495,9 @@ func runC06(r *core.Run) int {
 		}
 		l.NontrivialN(nontriv)
 	})
-	r.Extras["bounds"] = map[string]any{"patterns": nPat, "exhaustive_len": 3, "directed_inputs_per_pattern": nDirected, "n": []int{-1, 0, 1, 2, 3}, "methods": 22}
+	r.Extras["bounds"] = map[string]any{"patterns": nPat, "exhaustive_len": 3, "directed_inputs_per_pattern": nDirected, "n": []int{-1, 0, 1, 2, 3}, "methods": 25}
 	return r.Finish(
-		"patterns printed from random ASTs restricted to the RE2-common constructs (literals and escapes, ., classes incl. \\d\\w\\s, \\p{..}, POSIX names, ^ $ \\A \\z, (?m)(?s), capturing / (?:) / (?P<n>) / (?<n>) groups, alternation incl. empty branches, greedy and lazy quantifiers with counts up to 50 over non-nullable bodies; 5% with \\b/\\B); patterns Go rejects are skipped; every Matcher method (22, n in {-1,0,1,2,3}) of compat.Regexp (RE2 option) vs *regexp.Regexp on ASCII, multi-byte, invalid UTF-8 and empty inputs; evaluation = one (pattern,input); non-trivial = distinct (pattern,input) that Go matches",
+		"patterns printed from random ASTs restricted to the RE2-common constructs (literals and escapes, ., classes incl. \\d\\w\\s, \\p{..}, POSIX names, ^ $ \\A \\z, (?m)(?s), capturing / (?:) / (?P<n>) / (?<n>) groups, alternation incl. empty branches, greedy and lazy quantifiers with counts up to 50 over non-nullable bodies; 5% with \\b/\\B); patterns Go rejects are skipped; every Matcher method (22 + the three reader methods on a reader that fails half way, n in {-1,0,1,2,3}) of compat.Regexp (RE2 option) vs *regexp.Regexp on ASCII, multi-byte, invalid UTF-8 and empty inputs; evaluation = one (pattern,input); non-trivial = distinct (pattern,input) that Go matches",
 		[]string{"Go's regexp is the oracle", "classes whose members are exactly one case-fold orbit ([aA]) are left out: Go's parser merges the folded literal it makes of them with a plain literal during alternation factoring ([aA]x|A matches \"a\" in Go)", "known divergences (Unicode \\b, named-group numbering, the \\B auto-atomic rewrite) are suppressed only when the explained-by recomputation reproduces both engines"},
 		map[string]int64{"evaluations": 20000, "distinct_nontrivial": 5000, "method_FindAllStringSubmatchIndex(n=-1)": 20000})
 }
